@@ -126,9 +126,9 @@ package otr3
 // events (ghost logs): the log append *is* the meaning of these helpers; their
 // contracts are assumed (the handlers they call are user code).
 // ---------------------------------------------------------------------------
-//@ ghostfield seclog BS
-//@ ghostfield msglog BS
-//@ ghostfield smplog BS
+//@ ghoststate seclog BS
+//@ ghoststate msglog BS
+//@ ghoststate smplog BS
 //@ ghostfn evpush(BS, BV64) BS
 
 //@ func (*Conversation).securityEvent
@@ -319,10 +319,12 @@ package otr3
 //@   modifies elems(k)
 //@   ensures [C08.helpers.secret] zeroed(k)
 //@ func wipeBigInt
+//@   inline
 //@   modifies val(k)
 //@   ensures [C08.helpers.bigint] k != nil ==> val(k) == 0
 
 //@ func (*dhKeyPair).wipe
+//@   inline
 //@   modifies p.pub, p.priv, val(p.pub), elems(p.priv)
 //@   ensures [C08.helpers.dhpair] p != nil ==> (p.pub == nil && p.priv === nil && zeroed(old(p.priv)) && (old(p.pub) != nil ==> val(old(p.pub)) == 0))
 
@@ -409,8 +411,8 @@ package otr3
 // ---------------------------------------------------------------------------
 // messages.go: data message wire format and MAC (C02, C10, C13, C17)
 // ---------------------------------------------------------------------------
-//@ ghostfield macok Bool
-//@ ghostfield mackey BS
+//@ ghoststate macok Bool
+//@ ghoststate mackey BS
 
 //@ define ylen(msg) = old(int(be32(msg, 9)))
 //@ define enclen(msg) = old(int(be32(msg, 21 + ylen(msg))))
@@ -447,3 +449,118 @@ package otr3
 //@   ghostset macok(nil) = (result == nil)
 //@   ghostset mackey(nil) = bytes(key)
 //@   ensures [C02.checksign] (result == nil) <==> (len(c.authenticator) == 20 && bytes(c.authenticator) == hashval(hmackind(1, bytes(key)), bs_cat(bs_cat(bs_empty(), bytes(header)), bytes(c.serializeUnsignedCache))))
+
+// ---------------------------------------------------------------------------
+// session keys, data message generation and reception (C02-C06, C09, C10, C18, C19)
+// ---------------------------------------------------------------------------
+//@ define kmcOK(k) = chNonNil(k.counterHistory) && chUnique(k.counterHistory)
+//@ define kmcPubs(k) = (k.ourKeyID != 0 ==> k.ourCurrentDHKeys.pub != nil) && (k.ourKeyID > 1 ==> k.ourPreviousDHKeys.pub != nil) && (k.theirKeyID != 0 ==> k.theirCurrentDHPubKey != nil)
+//@ define convOK(c) = c != nil && keysNonNil(c) && kmcOK(c.keys) && kmcPubs(c.keys) && (c.msgState == encrypted ==> c.version != nil)
+
+//@ func calculateDHSessionKeys
+//@   requires ourPubKey != nil && theirPubKey != nil && v != nil
+//@   pure
+//@   ensures [C10.session.keys.len] len(result.sendingAESKey) == 16 && len(result.receivingAESKey) == 16 && len(result.sendingMACKey) == 20 && len(result.receivingMACKey) == 20 && len(result.extraKey) == 32
+//@   ensures nonglobal(result.sendingAESKey) && nonglobal(result.receivingAESKey) && nonglobal(result.sendingMACKey) && nonglobal(result.receivingMACKey) && nonglobal(result.extraKey)
+
+//@ func (*keyManagementContext).calculateDHSessionKeys
+//@   requires k != nil && v != nil && kmcPubs(k)
+//@   modifies k.macKeyHistory.items, elems(k.macKeyHistory.items)
+//@   ensures [C02.keys.err,C05.retired.keys,C04.window.keys] (result1 == nil) <==> (ourKeyID != 0 && k.ourKeyID != 0 && (ourKeyID == k.ourKeyID || ourKeyID == k.ourKeyID - 1) && theirKeyID != 0 && k.theirKeyID != 0 && (theirKeyID == k.theirKeyID || (theirKeyID == k.theirKeyID - 1 && k.theirPreviousDHPubKey != nil)))
+//@   ensures [C09.used.recorded] result1 == nil ==> len(k.macKeyHistory.items) == len(old(k.macKeyHistory.items)) + 1
+//@   ensures [C06.keys.reject,C19.keys.reject] result1 != nil ==> k.macKeyHistory.items === old(k.macKeyHistory.items)
+//@   ensures result1 == nil ==> (len(result0.sendingAESKey) == 16 && len(result0.receivingAESKey) == 16 && len(result0.sendingMACKey) == 20 && len(result0.receivingMACKey) == 20 && len(result0.extraKey) == 32)
+//@   ensures nonglobal(result0.sendingAESKey) && nonglobal(result0.receivingAESKey) && nonglobal(result0.sendingMACKey) && nonglobal(result0.receivingMACKey) && nonglobal(result0.extraKey)
+
+//@ func counterEncipher
+//@   requires len(dst) >= len(src) && len(iv) == 16
+//@   modifies elems(dst)
+//@   ensures [C13.cipher.err] (result == nil) <==> (len(key) == 16 || len(key) == 24 || len(key) == 32)
+
+//@ func (plainDataMsg).encrypt
+//@   requires len(key) == 16
+//@   modifies elems(c.message), elems(c.tlvs)
+//@   ensures [C10.plain.len] fresh(result) && len(result) >= len(c.message) + 1
+//@ loop (plainDataMsg).serialize #0
+//@   invariant (sbaseSame(out, c.message) || fresh(out)) && len(out) >= len(c.message) + 1
+
+//@ func (*plainDataMsg).decrypt
+//@   requires c != nil && macok(nil)
+//@   modifies c.message, c.tlvs, elems(c.tlvs), elems(src)
+//@   ensures [C02.decrypt.inplace] result == nil ==> (c.message === nil || within(c.message, src))
+
+//@ func (*plainDataMsg).deserialize
+//@   requires c != nil
+//@   modifies c.message, c.tlvs, elems(c.tlvs)
+//@   ensures [C17.plain.parse] c.message === nil || within(c.message, msg)
+//@ loop (*plainDataMsg).deserialize #0
+//@   invariant 0 <= nulPos && nulPos <= len(msg)
+//@   decreases len(msg) - nulPos
+//@ loop (*plainDataMsg).deserialize #1
+//@   invariant c != nil && nonglobal(tlvsBytes)
+//@   decreases len(tlvsBytes)
+
+//@ func (*tlv).deserialize
+//@   requires c != nil
+//@   modifies c.*
+//@   ensures [C17.tlv.parse,C13.tlv.len] result == nil ==> (len(tlvsBytes) >= 4 && c.tlvType == old(be16(tlvsBytes, 0)) && c.tlvLength == old(be16(tlvsBytes, 2)) && c.tlvValue === tlvsBytes[4:4+int(c.tlvLength)] && 4 + int(c.tlvLength) <= len(tlvsBytes))
+
+//@ func (dataMsg).serialize
+//@   requires v != nil && c.y != nil
+//@   pure
+//@   ensures [C19.msgsize] fresh(result) && len(result) >= len(c.authenticator)
+//@ loop (dataMsg).serialize #0
+//@   invariant fresh(revKeys)
+
+//@ func (*keyManagementContext).wipeKeys
+//@   ghostset keysWiped(c) = old(keysWiped(c)) + 1
+//@   modifies c.ourCurrentDHKeys.*, c.ourPreviousDHKeys.*, c.theirCurrentDHPubKey, c.theirPreviousDHPubKey, val(c.ourCurrentDHKeys.pub), val(c.ourPreviousDHKeys.pub), val(c.theirCurrentDHPubKey), val(c.theirPreviousDHPubKey), elems(c.ourCurrentDHKeys.priv), elems(c.ourPreviousDHKeys.priv)
+//@   ensures [C08.helpers.wipekeys] c != nil ==> (c.ourCurrentDHKeys.priv === nil && c.ourPreviousDHKeys.priv === nil && c.ourCurrentDHKeys.pub == nil && c.ourPreviousDHKeys.pub == nil && c.theirCurrentDHPubKey == nil && c.theirPreviousDHPubKey == nil && zeroed(old(c.ourCurrentDHKeys.priv)) && zeroed(old(c.ourPreviousDHKeys.priv)))
+
+//@ ghoststate kmcWiped Int
+//@ ghoststate keysWiped Int
+//@ ghoststate akeWiped Int
+//@ ghoststate akeKeysWiped Int
+
+//@ func (*keyManagementContext).wipe
+//@   modifies anything
+//@   ghostset kmcWiped(c) = old(kmcWiped(c)) + 1
+//@   modifies keysWiped(c)
+//@   ensures [C08.helpers.kmcwipe.keys] c != nil ==> keysWiped(c) == old(keysWiped(c)) + 1
+//@   ensures [C08.helpers.kmcwipe] c != nil ==> (c.ourKeyID == 0 && c.theirKeyID == 0 && c.ourCurrentDHKeys.priv === nil && c.ourPreviousDHKeys.priv === nil && c.ourCurrentDHKeys.pub == nil && c.ourPreviousDHKeys.pub == nil && c.theirCurrentDHPubKey == nil && c.theirPreviousDHPubKey == nil && c.oldMACKeys === nil && c.counterHistory.counters === nil && c.macKeyHistory.items === nil)
+//@ loop (*keyManagementContext).wipe #0
+//@   invariant c != nil && c.ourCurrentDHKeys.priv === nil && c.ourPreviousDHKeys.priv === nil && c.ourCurrentDHKeys.pub == nil && c.ourPreviousDHKeys.pub == nil && c.theirCurrentDHPubKey == nil && c.theirPreviousDHPubKey == nil && c.ourKeyID == 0 && c.theirKeyID == 0
+
+//@ func (*counterHistory).wipe
+//@   modifies anything
+//@   ensures h != nil ==> h.counters === nil
+//@ func (*macKeyHistory).wipe
+//@   modifies anything
+//@   ensures h != nil ==> h.items === nil
+
+//@ func (*ake).wipe
+//@   modifies anything
+//@   ghostset akeWiped(a) = old(akeWiped(a)) + 1
+//@   ghostset akeKeysWiped(a) = ite(wipeKeys, old(akeKeysWiped(a)) + 1, old(akeKeysWiped(a)))
+//@   modifies kmcWiped(addr(a.keys)), keysWiped(addr(a.keys))
+//@   ensures [C08.helpers.akewipe] a != nil ==> (a.secretExponent === nil && a.ourPublicValue == nil && a.theirPublicValue == nil && a.xhashedGx === nil && a.encryptedGx === nil && a.revealKey.c === nil && a.revealKey.m1 === nil && a.revealKey.m2 === nil && a.sigKey.c === nil && a.sigKey.m1 === nil && a.sigKey.m2 === nil)
+//@   ensures [C08.helpers.akewipe.keys] (a != nil && !wipeKeys) ==> (a.keys.ourCurrentDHKeys.priv === nil && a.keys.ourKeyID == 0)
+//@   ensures [C08.helpers.akewipe.keys.wiped] (a != nil && wipeKeys) ==> (a.keys.ourCurrentDHKeys.priv === nil)
+
+// ---------------------------------------------------------------------------
+// session lifecycle (C18, C08, C03)
+// ---------------------------------------------------------------------------
+//@ func (*smp).wipe
+//@   requires s != nil
+//@   modifies s.*, val(s.secret)
+//@   ensures [C08.helpers.smpwipe] s.state == nil && s.question == nil && s.secret == nil && s.s1 == nil && s.s2 == nil && s.s3 == nil && (old(s.secret) != nil ==> val(old(s.secret)) == 0)
+
+//@ func (*Conversation).processDisconnectedTLV
+//@   requires c != nil
+//@   modifies anything
+//@   modifies seclog(c), kmcWiped(addr(c.keys)), keysWiped(addr(c.keys)), akeWiped(c.ake), akeKeysWiped(c.ake), kmcWiped(addr(c.ake.keys)), keysWiped(addr(c.ake.keys))
+//@   preserves [C18.disconnect.frame] c.theirKey, c.ssid, c.version, c.ourCurrentKey, c.ourInstanceTag, c.theirInstanceTag, c.Policies
+//@   ensures [C18.disconnect.state] c.msgState == finished && result0 == nil && result1 == nil
+//@   ensures [C18.disconnect.event] (old(c.msgState) == encrypted ==> seclog(c) == evpush(old(seclog(c)), uint64(GoneInsecure))) && (old(c.msgState) != encrypted ==> seclog(c) == old(seclog(c)))
+//@   ensures [C08.disconnect.drop] c.ake == nil && c.keys.ourKeyID == 0 && c.keys.theirKeyID == 0 && c.keys.ourCurrentDHKeys.priv === nil && c.keys.ourPreviousDHKeys.priv === nil && c.smp.secret == nil && c.smp.state == nil
+//@   ensures [C08.disconnect.wipe] kmcWiped(addr(c.keys)) == old(kmcWiped(addr(c.keys))) + 1 && (old(c.ake) != nil ==> (akeWiped(old(c.ake)) == old(akeWiped(c.ake)) + 1 && akeKeysWiped(old(c.ake)) == old(akeKeysWiped(c.ake)) + 1))
